@@ -212,7 +212,7 @@ def apply_defects(proj, defects):
                 p["ids"][0] = p["ids"][0] + ["GPL-2.0"]
             proj["licenses"]["LICENSES/GPL-2.0.txt"] = "gpl2\n"
         elif d == "c5-unused-licenseref":
-            proj["licenses"]["LICENSES/LicenseRef-spare.txt"] = "spare custom licence\nsecond line\n"
+            proj["licenses"]["LICENSES/LicenseRef-Spare-2.1.txt"] = "spare custom licence\nsecond line\n"
         elif d == "c4-not-an-id":
             proj["licenses"]["LICENSES/notanid.txt"] = "what\n"
         elif d == "d1-unreadable":
